@@ -38,12 +38,12 @@ extern const void *g_sgn_keymat; extern const void *g_sgn_data; extern size_t g_
 extern int g_sgn_hash, g_sgn_pss;
 extern int g_sgn_done;		/* 1 iff the primitive produced a signature */
 
-#define OPS_PRIM_GHOSTS_MAC g_mac_key, g_mac_keylen, g_mac_data, g_mac_len, g_mac_hash, g_mac_out
+#define OPS_PRIM_GHOSTS_MAC g_mac_key, g_mac_keylen, g_mac_data, g_mac_len, g_mac_hash, g_mac_out, g_lib_fail
 #define OPS_PRIM_GHOSTS_VER g_ver_keymat, g_ver_data, g_ver_len, g_ver_hash, g_ver_pss, g_ver_family, g_ver_sig, \
-	g_ver_siglen, g_ver_raw_r, g_ver_raw_s, g_ver_raw_n, g_ver_valid, g_der_buf, g_der_sig
-#define OPS_PRIM_GHOSTS_SGN g_sgn_keymat, g_sgn_data, g_sgn_len, g_sgn_hash, g_sgn_pss, g_sgn_done
-#define OPS_GHOST_ASSIGNS_SIGN OPS_PRIM_GHOSTS_MAC, OPS_PRIM_GHOSTS_SGN
-#define OPS_GHOST_ASSIGNS OPS_PRIM_GHOSTS_MAC, OPS_PRIM_GHOSTS_SGN, OPS_PRIM_GHOSTS_VER
+	g_ver_siglen, g_ver_raw_r, g_ver_raw_s, g_ver_raw_n, g_ver_valid, g_der_buf, g_der_sig, g_lib_fail, g_ver_calls
+#define OPS_PRIM_GHOSTS_SGN g_sgn_keymat, g_sgn_data, g_sgn_len, g_sgn_hash, g_sgn_pss, g_sgn_done, g_lib_fail
+#define OPS_GHOST_ASSIGNS_SIGN g_mac_key, g_mac_keylen, g_mac_data, g_mac_len, g_mac_hash, g_mac_out, OPS_PRIM_GHOSTS_SGN
+#define OPS_GHOST_ASSIGNS g_mac_key, g_mac_keylen, g_mac_data, g_mac_len, g_mac_hash, g_mac_out, g_sgn_keymat, g_sgn_data, g_sgn_len, g_sgn_hash, g_sgn_pss, g_sgn_done, OPS_PRIM_GHOSTS_VER
 
 #define OPS_JWT_VALID(jwt) (__CPROVER_r_ok(jwt, sizeof(*jwt)) && (jwt)->key != NULL && \
 			    __CPROVER_r_ok((jwt)->key, sizeof(*(jwt)->key)))
@@ -134,7 +134,8 @@ DECL_OPS_SIGN_SHA_PEM(contract_nogate_ops_sign_sha_pem, GATE_NONE);
 		 g_ver_raw_r == (const void *)(sig) && g_ver_raw_s == (const void *)((sig) + SPEC_EC_N((jwt)->key->bits))) : \
 		(g_ver_sig == (const void *)(sig) && g_ver_siglen == (size_t)(sig_len))))
 
-#define DECL_OPS_VERIFY_SHA_PEM(NAME, GATE) \
+#define DECL_OPS_VERIFY_SHA_PEM(NAME, GATE) DECL_OPS_VERIFY_SHA_PEM_X(NAME, GATE, )
+#define DECL_OPS_VERIFY_SHA_PEM_X(NAME, GATE, EXTRA) \
 int NAME(jwt_t *jwt, const char *head, unsigned int head_len, unsigned char *sig, int sig_len) \
 __CPROVER_requires(OPS_JWT_VALID(jwt)) \
 __CPROVER_requires(SPEC_IS_ASYM(jwt->alg)) \
@@ -150,7 +151,8 @@ __CPROVER_ensures((__CPROVER_old(jwt->error) == 0 && jwt->error == 0) ==> \
 	OPS_VERIFIED_EXACTLY(jwt, head, head_len, sig, sig_len)) \
 __CPROVER_ensures(__CPROVER_return_value != 0 ==> jwt->error != 0) \
 __CPROVER_ensures(SPEC_ERRMSG_TERMINATED(jwt)) \
-SPEC_ERR_MONOTONE(jwt)
+SPEC_ERR_MONOTONE(jwt) \
+EXTRA
 
 DECL_OPS_VERIFY_SHA_PEM(contract_ops_verify_sha_pem, GATE_PEM_FULL);
 DECL_OPS_VERIFY_SHA_PEM(contract_all_ops_verify_sha_pem, GATE_PEM_FULL);
